@@ -129,3 +129,139 @@ kernel('dtw_distance', 0, False)
 kernel('dtw_distance_ndim', 0, True)
 kernel('dtw_distance_euclidean', 1, False)
 kernel('dtw_distance_ndim_euclidean', 1, True)
+
+
+# ---------------------------------------------------------------------------------------------
+# C03 on the C engine: the Euclidean kernel with an early-abandoning bound.  Same invariant as the Python
+# dtw.distance#maxdist (contracts/dtw_py.py): every buffer cell agrees with W unless both are above the bound; the
+# columns up to sc and beyond ec are above the bound in W.  (The squared kernel compares a square-rooted result
+# with the user's bound in its final test -- the sqrt/square round trip the property excludes -- and stays bounded.)
+M_ = 'max_dist'
+AG_PREV = ('forall(lambda col: implies(JSrow({i} - 1, l1, l2, window) <= col <= l2 and 0 <= col - {skip} < length, '
+           'Agree(%s, dtw[{row} * length + col - {skip}], W({i}, col))), pattern=W({i}, col))' % M_)
+ABOVE_L = 'forall(lambda col: implies(1 <= col <= {sc} and col <= l2, %s < W({i}, col)), pattern=W({i}, col))' % M_
+ABOVE_R = 'forall(lambda col: implies({ec} < col <= l2, %s < W({i}, col)), pattern=W({i}, col))' % M_
+
+
+def _rel_lines_ea(name):
+    import os
+    from dvc.program import REPO, CDIR
+    src = open(os.path.join(REPO, CDIR, 'dd_dtw.c')).read().split('\n')
+    start = [k for k, l in enumerate(src) if l.startswith('seq_t %s(' % name)][0]
+    want = {'cur': ('d = fabs(s1[i] - s2[j]);', 'd = SEDIST(s1[i], s2[j]);'), 'cont': ('continue;',), 'store': ('dtw[curidx] = d + minv;',),
+            'ifnot': ('if (!smaller_found) {',), 'brk': ('break;',), 'sf': ('smaller_found = false;',), 'ec': ('ec = ec_next;',),
+            'res': ('seq_t result = sqrt(dtw[length * i1 + l2 - skip]);', 'seq_t result = dtw[length * i1 + l2 - skip];')}
+    out = {}
+    for k in range(start, len(src)):
+        t = src[k].strip()
+        for key, texts in want.items():
+            if t in texts and key not in out:
+                out[key] = k - start
+        if k > start and src[k].startswith('}'):
+            break
+    return out
+
+
+def kernel_ea(name, metric):
+    settled = ['window == Wnd()', 'penalty == Pen()', 'max_step == MaxStep()',
+               'ldiff == (l1 - l2 if l1 > l2 else l2 - l1)', 'dl == (l1 - l2 if l1 > l2 else 0)',
+               'length == ' + LEN, 'nelems(dtw) == 2 * length', 'off(dtw) == 0', 'window >= 1',
+               'dl_window == dl + window - 1', 'ldiff_window == window + (l2 - l1 if l2 > l1 else 0)',
+               '(i0 == 0 and i1 == 1) or (i0 == 1 and i1 == 0)', 'l1 >= 1', 'l2 >= 1',
+               '%s == MaxDistAdj(%d, settings.max_dist)' % (M_, metric), '%s < inf' % M_, 'not (%s < 0)' % M_, 'sc >= 0', 'ec >= 0',
+               'psi_shortest == inf']
+    params = [('s1', 'cptr:val'), ('l1', 'int'), ('s2', 'cptr:val'), ('l2', 'int'), ('settings', ('cstruct', 'DTWSettings'))]
+    rel = _rel_lines_ea(name)
+    JS, JE = 'JSrow(i, l1, l2, window)', 'JErow(i, l1, l2, window)'
+    loops = {
+        0: dict(head='for(;j < length * 2;)',
+                inv=['0 <= j <= 2 * length', 'forall(lambda k: implies(0 <= k < j, dtw[k] == inf))',
+                     'nelems(dtw) == 2 * length', 'off(dtw) == 0', 'length == ' + LEN, 'window >= 1',
+                     'ldiff == (l1 - l2 if l1 > l2 else l2 - l1)'],
+                variant='2 * length - j'),
+        1: dict(head='for(;i < settings.psi_2b + 1 and i < length;)',
+                inv=['0 <= i <= length', 'i <= settings.psi_2b + 1',
+                     'forall(lambda k: implies(0 <= k < 2 * length, dtw[k] == (0 if k < i else inf)))',
+                     'nelems(dtw) == 2 * length', 'off(dtw) == 0', 'length == ' + LEN, 'window >= 1',
+                     'ldiff == (l1 - l2 if l1 > l2 else l2 - l1)'],
+                variant='length - i'),
+        2: dict(head='for(;i < l1;)',
+                inv=settled + ['0 <= i <= l1', 'skip == ' + SKIP('i - 1'),
+                               AG_PREV.format(i='i', skip='skip', row='i1'), LEFT.format(i='i', row='i1'),
+                               'implies(i == 0, sc == 0 and ec == 0)',
+                               ABOVE_L.format(sc='sc', i='i'), ABOVE_R.format(ec='ec', i='i')],
+                variant='l1 - i'),
+        3: dict(head='for(;j < length;)',
+                inv=settled + ['0 <= i < l1', '0 <= j <= length', 'skipp == ' + SKIP('i - 1'),
+                               'skip == ' + JS, 'maxj == ' + JS, 'minj == ' + JE,
+                               AG_PREV.format(i='i', skip='skipp', row='i0'), LEFT.format(i='i', row='i0'),
+                               'implies(i == 0, sc == 0 and ec == 0)',
+                               ABOVE_L.format(sc='sc', i='i'), ABOVE_R.format(ec='ec', i='i'),
+                               'forall(lambda k: implies(i1 * length <= k < i1 * length + j, dtw[k] == inf))'],
+                variant='length - j'),
+        4: dict(head='for(;j < minj;)',
+                inv=settled + ['0 <= i < l1', 'skipp == ' + SKIP('i - 1'), 'skip == ' + SKIP('i'),
+                               'maxj >= ' + JS, 'minj == ' + JE, 'maxj <= j',
+                               AG_PREV.format(i='i', skip='skipp', row='i0'), LEFT.format(i='i', row='i0'),
+                               ABOVE_R.format(ec='ec', i='i'),
+                               'forall(lambda col: implies(%s <= col <= j and col <= l2 and 0 <= col - skip < length, '
+                               'Agree(%s, dtw[i1 * length + col - skip], W(i + 1, col))), pattern=W(i + 1, col))' % (JS, M_),
+                               'forall(lambda k: implies(i1 * length <= k < i1 * length + length and i1 * length + j - skip < k, dtw[k] == inf))',
+                               LEFT.format(i='i + 1', row='i1'),
+                               ABOVE_L.format(sc='sc', i='i + 1'),
+                               'implies(not smaller_found, forall(lambda col: implies(1 <= col <= j, %s < W(i + 1, col)), pattern=W(i + 1, col)))' % M_,
+                               'forall(lambda col: implies(ec_next < col <= j, %s < W(i + 1, col)), pattern=W(i + 1, col))' % M_,
+                               'ec_next >= 0'],
+                variant='minj - j'),
+    }
+    row_so_far = ('forall(lambda col: implies(%s <= col <= j + 1 and col <= l2 and 0 <= col - skip < length, '
+                  'Agree(%s, dtw[i1 * length + col - skip], W(i + 1, col))), pattern=W(i + 1, col))' % (JS, M_))
+    above_cell = '%s < W(i + 1, j + 1)' % M_
+    contract(
+        'dd_dtw.c::' + name + '#maxdist',
+        params=dict(params),
+        bind={'ctx': 'DTWctxC(s1, l1, s2, l2, settings, %d, 0)' % metric},
+        requires=['1 <= l1 <= 2**40', '1 <= l2 <= 2**40', 'off(s1) >= 0', 'off(s2) >= 0',
+                  'length(s1) - off(s1) >= l1', 'length(s2) - off(s2) >= l2',
+                  '0 <= settings.window <= 2**40', 'settings.max_length_diff == 0',
+                  'settings.psi_1b == 0', 'settings.psi_1e == 0', 'settings.psi_2b == 0', 'settings.psi_2e == 0',
+                  'settings.penalty >= 0', 'not settings.use_pruning', 'not settings.only_ub',
+                  'settings.max_dist > 0', 'settings.max_dist < inf', 'MaxDistAdj(%d, settings.max_dist) < inf' % metric,
+                  'settings.inner_dist == %d' % metric],
+        ensures=([
+                 'implies(Dend(0, 0) < MaxDistAdj(1, settings.max_dist), result == Dend(0, 0))',
+                 'implies(MaxDistAdj(1, settings.max_dist) < Dend(0, 0), result == inf)',
+                 'result == inf or result == Dend(0, 0)'] if metric == 1 else [
+                 # as the property states it: the (square-rooted) distance is below the user's bound
+                 'implies(vsqrt(Dend(0, 0)) < settings.max_dist, result == vsqrt(Dend(0, 0)))']),
+        loops=loops,
+        hints={rel['cur']: ['Mention(W(i, j)) and Mention(W(i, j + 1)) and Mention(W(i + 1, j)) and Mention(W(i + 1, j + 1))',
+                            'Agree(%s, dtw[i0 * length + j - skipp], W(i, j))' % M_,
+                            'Agree(%s, dtw[i0 * length + j + 1 - skipp], W(i, j + 1))' % M_,
+                            'Agree(%s, dtw[i1 * length + j - skip], W(i + 1, j))' % M_],
+               rel['sf']: ['%s < W(i + 1, 0)' % M_, 'implies(i >= 1, %s < W(i, 0))' % M_],
+               rel['store']: ['AStep(%s, i + 1, j + 1, dtw[i0 * length + j - skipp], dtw[i0 * length + j + 1 - skipp], '
+                              'dtw[i1 * length + j - skip])' % M_,
+                              'Agree(%s, dtw[i1 * length + j + 1 - skip], W(i + 1, j + 1))' % M_, row_so_far],
+               rel['ec']: ['Mention(W(i + 1, l2))'],
+               # the square root of the squared bound is the bound (theory sqrtsq): links the internal test to the final one
+               rel['res']: (['vsqrt(%s) == settings.max_dist' % M_] if metric == 0 else [])},
+        theories=('dtw', 'bounds', 'floatzero', 'nonneg', 'astep', 'sqrtmono') + (('sqrtsq',) if metric == 0 else ()),
+        lemmas=['CellAbove', 'RowAboveLeft', 'RowAboveRight', 'AgreeStep', 'RowAllInf', 'RowLeadInf'],
+        order_axioms=True,
+        replay=gens.gen_kernel_ea(metric),
+        props=('C03',),
+    )
+    from dvc.contracts import CONTRACTS
+    CONTRACTS['dd_dtw.c::' + name + '#maxdist'].hints_before = {
+        rel['cont']: [above_cell], rel['ifnot']: [above_cell],
+        rel['brk']: [above_cell,
+                     'forall(lambda col: implies(j + 1 <= col <= l2, %s < W(i + 1, col)), pattern=W(i + 1, col))' % M_,
+                     row_so_far,
+                     'forall(lambda k: implies(i1 * length <= k < i1 * length + length and i1 * length + j + 1 - skip < k, dtw[k] == inf))']}
+
+
+kernel_ea('dtw_distance_euclidean', 1)
+# the squared kernel: only the clause "below the bound -> the unbounded value" (its final test is on the square-rooted result;
+# what it answers above the bound depends on the round trip within a rounding width of the bound)
+kernel_ea('dtw_distance', 0)
